@@ -305,6 +305,10 @@ def check(fx, rep, tier):
                         ok = True
                 rep.oblige(ok, "R11.4", f"row-index:{F.strip_generics(b['def'])}", F.loc(n["span"]), "the layout row index is not the constant under the StorageSlot: slot identity would depend on something positional", sample={"rule": "R11.4", "index": "KnownData under StorageSlot"})
     rep.floor("R11.4", adds, 2, "calls of StorageLayout::add")
+    # evidence of an earlier run must not take part in the next one (shared with C05 R05.7)
+    from .c05 import check_fresh_run
+
+    check_fresh_run(fx, rep, "R11.1")
     return rep.finish(
         "Channel-closure audit: no mutable or lazily initialised global in the crate; every judgement an inference rule adds targets a variable derived from the rule's own value (or a fresh one) and rules / lifting passes "
         "read no other evidence; structural sharing is limited to values containing Value / CallData / StorageSlot, keyed by the value, with equality ignoring exactly ip and provenance and a fresh variable otherwise; "
